@@ -8,4 +8,6 @@ cd harness
 cp /repo/go.sum go.sum
 go build -tags verif -o ../bin/verifd.setup . 
 rm -f ../bin/verifd.setup
+# the race-detector build used by the race lanes (warms the cache of race-instrumented packages)
+go build -tags verif -race -o ../bin/verifd-race.setup . && rm -f ../bin/verifd-race.setup
 echo "setup ok"
